@@ -131,7 +131,11 @@ _PRUNE = _f(MINP, None, "get_invalid_minima", "get_all_bounds_minima", "get_boun
 _DEPENDS = {
     "C01": _HEF_RUN + _f(HEF, H, "get_smallest_eigenvector") + _BH + _BOX + _PRUNE +
            _f(NEB, N, "run", "find_ts_candidates", "minimise_interpolation", "initial_interpolation"),
-    "C02": _PRUNE,
+    "C02": _PRUNE + _GRAPH + _f(KTN, K, "add_network") + _f(DISC, None, "get_connectivity_graph") +
+           _f(ROUGH, None, "roughness_metric") +
+           _f(BATCH, None, "select_batch", "generate_batch", "fill_batch", "barrier_batch_selector",
+              "topographical_batch_selector", "monotonic_batch_selector", "lowest_batch_selector", "sufficient_barrier",
+              "get_excluded_minima"),
     "C03": _MSIM,
     "C04": _BOX,
     "C07": _ATOMS + _PERTS + _f(SIM, SS, "test_new_minimum", "is_new_minimum") + _f(MSIM, MS, "centre"),
@@ -142,8 +146,11 @@ _DEPENDS = {
            _f(PAIRS, None, "closest_enumeration", "connect_to_set", "connect_unconnected", "unique_pairs"),
     "C15": _f(HEF, H, "run") + _BOX,
     "C17": _f(MINP, None, "get_minima_above_cutoff"),
-    "C18": _f(MINP, None, "get_minima_above_cutoff"),
-    "C19": _f(GP, "GaussianProcess", "refit_model", "update_bounds", "initialise_gaussian_process"),
+    "C18": _f(MINP, None, "get_minima_above_cutoff") + _GATES,
+    "C19": _f(GP, "GaussianProcess", "refit_model", "update_bounds", "initialise_gaussian_process", "lowest_point") +
+           _f(MDATA, "ModelData", "write_data"),
+    "C06": _f(DISC, None, "get_connectivity_graph") + _GRAPH,
+    "C12": _f(SIM, SS, "closest_distance", "distance") + _f(KTN, K, "reset_network"),
 }
 for _p, _fs in _DEPENDS.items():
     for _t in _fs:
